@@ -70,6 +70,8 @@ def build(tree):
 
 def ops_menu(gene_ids):
     ops = [("gene_ko", g) for g in gene_ids]
+    # only the flag, through its public setter (the gene's reactions keep their bounds until a knock-out is applied)
+    ops += [("flag", g) for g in gene_ids]
     for k in range(1, len(gene_ids) + 1):
         for sub in itertools.combinations(gene_ids, k):
             for form in ("ids", "objects", "indices"):
@@ -79,12 +81,16 @@ def ops_menu(gene_ids):
 
 
 def expected(rules, knocked, direct):
+    """State = (non-functional genes, reactions whose bounds were set to zero by an applied knock-out)."""
     exp = {}
     for rid, tree in rules.items():
         functional = ref_gpr.evaluate(tree, knocked)
-        exp[rid] = {"bounds": (0, 0) if (not functional or rid in direct) else INIT_BOUNDS[rid],
-                    "functional": functional}
+        exp[rid] = {"bounds": (0, 0) if rid in direct else INIT_BOUNDS[rid], "functional": functional}
     return exp
+
+
+def _zeroed_by(rules, flags, gene):
+    return {rid for rid, t in rules.items() if gene in ref_gpr.genes(t) and not ref_gpr.evaluate(t, flags)}
 
 
 def apply_op(m, op):
@@ -92,6 +98,9 @@ def apply_op(m, op):
 
     if op[0] == "gene_ko":
         m.genes.get_by_id(op[1]).knock_out()
+        return None
+    if op[0] == "flag":
+        m.genes.get_by_id(op[1]).functional = False
         return None
     if op[0] == "rxn_ko":
         m.reactions.get_by_id(op[1]).knock_out()
@@ -106,13 +115,19 @@ def apply_op(m, op):
     return knock_out_model_genes(m, arg)
 
 
+RULES = {}
+
+
 def next_state(state, op):
-    knocked, direct = state
-    if op[0] == "gene_ko":
+    knocked, direct = set(state[0]), set(state[1])
+    if op[0] == "flag":
         return (knocked | {op[1]}, direct)
     if op[0] == "rxn_ko":
         return (knocked, direct | {op[1]})
-    return (knocked | set(op[1]), direct)
+    for g in ([op[1]] if op[0] == "gene_ko" else list(op[1])):
+        knocked = knocked | {g}
+        direct = direct | _zeroed_by(RULES["current"], knocked, g)
+    return (knocked, direct)
 
 
 def observe_state(m):
@@ -159,6 +174,7 @@ def shape_of(tree):
 def explore_rule(tree, stats):
     viol = []
     rules = {"r1": tree, "r2": ("or", "g2", "g3"), "r3": None}
+    RULES["current"] = rules
     with warnings.catch_warnings():
         warnings.simplefilter("ignore")
         m = build(tree)
